@@ -10,7 +10,12 @@
 //	            the messages are encrypted in order on one instance and decrypted in reverse
 //	            order on a second one; ref = crypto/cipher CFB (salsa20.XORKeyStream, identity)
 //	         (4 bs mul key iv dec seed len)  crypto/cipher's own CFB stream over the toy block
-//	observed = (panicked (out ...)) | (keystream enc dec) | (enc dec) | (panicked ((enc dec ref) ...)) | (panicked out)
+//	         (5 name key iv seed len)        factory slicing: key / iv of any length; observed carries an oracle
+//	            table: for every stock cipher c and n in {16,24,32,len(key)} that can be keyed with key[:n],
+//	            stock CFB of the message under iv[:bs] (salsa20: key[:32], nonce iv[:8] zero padded)
+//	         (6 name keyA ivA keyB ivB seed len)  two instances whose key or iv differ in one byte
+//	observed = (ctor_panicked run_panicked enc dec ((c n ref) ...)) | (panickedA encA panickedB encB) |
+//	           (panicked (out ...)) | (keystream enc dec) | (enc dec) | (panicked ((enc dec ref) ...)) | (panicked out)
 //
 // Go-side sweep (out.GoChecked / out.Violation): every factory name against crypto/cipher's
 // CFB with the same key and the first block of the IV, round trip, decryption out of order
@@ -25,6 +30,7 @@ import (
 	"fmt"
 	"io"
 	"log"
+	"sync"
 
 	"github.com/tjfoc/gmsm/sm4"
 	"golang.org/x/crypto/salsa20"
@@ -104,6 +110,21 @@ func run(in Sx) Sx {
 		return List(Bytes(enc), Bytes(dec))
 	case 3:
 		return runFactory(in)
+	case 5:
+		return runSlicing(in)
+	case 6:
+		msg := lcg(in.At(6).Uint64(), in.At(7).AsInt())
+		one := func(key, iv []byte) (bool, []byte) {
+			var enc []byte
+			p, _ := Catch(func() {
+				c := xcipher.NewCrypt(in.At(1).AsString(), exact(key), exact(iv))
+				enc = append([]byte{}, c.Encrypt(exact(msg))...)
+			})
+			return p, enc
+		}
+		pa, ea := one(in.At(2).AsBytes(), in.At(3).AsBytes())
+		pb, eb := one(in.At(4).AsBytes(), in.At(5).AsBytes())
+		return List(Bool(pa), Bytes(ea), Bool(pb), Bytes(eb))
 	case 4:
 		// crypto/cipher's CFB stream itself over the toy block (the model std_cfb is compared with it)
 		blk := &toyBlock{bs: in.At(1).AsInt(), mul: byte(in.At(2).AsInt()), key: in.At(3).AsBytes()}
@@ -164,6 +185,81 @@ var refBlocks = map[string]func(k []byte) (stdcipher.Block, error){
 	"twofish": func(k []byte) (stdcipher.Block, error) { return twofish.NewCipher(k) },
 	"3des":    func(k []byte) (stdcipher.Block, error) { return des.NewTripleDESCipher(k[:24]) },
 	"xtea":    func(k []byte) (stdcipher.Block, error) { return xtea.NewCipher(k[:16]) },
+}
+
+// a copy whose capacity equals its length (key[:n] must fail when the key is too short)
+func exact(b []byte) []byte {
+	c := make([]byte, len(b))
+	copy(c, b)
+	return c
+}
+
+var stockCiphers = []struct {
+	id int64
+	mk func(k []byte) (stdcipher.Block, error)
+}{
+	{1, func(k []byte) (stdcipher.Block, error) { return aes.NewCipher(k) }},
+	{2, func(k []byte) (stdcipher.Block, error) { return sm4.NewCipher(k) }},
+	{3, func(k []byte) (stdcipher.Block, error) { return twofish.NewCipher(k) }},
+	{4, func(k []byte) (stdcipher.Block, error) { return des.NewTripleDESCipher(k) }},
+	{5, func(k []byte) (stdcipher.Block, error) { return xtea.NewCipher(k) }},
+}
+
+// the oracle table: nothing here knows the factory's names
+func oracleTable(key, iv, msg []byte) []Sx {
+	var t []Sx
+	seen := map[int]bool{}
+	for _, n := range []int{16, 24, 32, len(key)} {
+		if n > len(key) || seen[n] {
+			continue
+		}
+		seen[n] = true
+		for _, sc := range stockCiphers {
+			var blk stdcipher.Block
+			var err error
+			if p, _ := Catch(func() { blk, err = sc.mk(exact(key[:n])) }); p || err != nil || blk == nil {
+				continue
+			}
+			if len(iv) < blk.BlockSize() {
+				continue
+			}
+			ref := make([]byte, len(msg))
+			stdcipher.NewCFBEncrypter(blk, exact(iv[:blk.BlockSize()])).XORKeyStream(ref, msg)
+			t = append(t, List(Int(sc.id), Int(int64(n)), Bytes(ref)))
+		}
+		if n == 32 {
+			var k32 [32]byte
+			var nonce [8]byte
+			copy(k32[:], key)
+			copy(nonce[:], iv)
+			ref := make([]byte, len(msg))
+			salsa20.XORKeyStream(ref, msg, nonce[:], &k32)
+			t = append(t, List(Int(6), Int(32), Bytes(ref)))
+		}
+	}
+	return t
+}
+
+func runSlicing(in Sx) Sx {
+	name, key, iv := in.At(1).AsString(), in.At(2).AsBytes(), in.At(3).AsBytes()
+	msg := lcg(in.At(4).Uint64(), in.At(5).AsInt())
+	var a, b xcipher.BlockCryptor
+	cp, _ := Catch(func() {
+		a = xcipher.NewCrypt(name, exact(key), exact(iv))
+		b = xcipher.NewCrypt(name, exact(key), exact(iv))
+	})
+	var enc, dec []byte
+	rp := false
+	if !cp {
+		rp, _ = Catch(func() {
+			enc = append([]byte{}, a.Encrypt(exact(msg))...)
+			dec = append([]byte{}, b.Decrypt(exact(enc))...)
+		})
+	}
+	if rp {
+		enc, dec = nil, nil
+	}
+	return List(Bool(cp), Bool(rp), Bytes(enc), Bytes(dec), ListOf(oracleTable(key, iv, msg)))
 }
 
 func runFactory(in Sx) Sx {
@@ -247,6 +343,40 @@ type genState struct {
 
 // at most 3 recorded violations per signature (Out keeps 50 in all)
 var violCount = map[string]int{}
+
+// acc collects what one worker of a Go-side sweep finds; the workers run in parallel, each
+// with its own PRNG stream forked in a fixed order, and are merged in that order.
+type acc struct {
+	GoChecked int64
+	viols     []GoViolation
+	counts    []string
+	notes     []string
+}
+
+func (a *acc) Count(k string) { a.counts = append(a.counts, k) }
+func (a *acc) Note(f string, args ...interface{}) {
+	a.notes = append(a.notes, fmt.Sprintf(f, args...))
+}
+func (a *acc) violation(sig, what string, c Sx) {
+	if len(a.viols) < 8 {
+		a.viols = append(a.viols, GoViolation{Signature: sig, What: what, Case: c.String()})
+	}
+}
+func (a *acc) merge(out *Out) {
+	out.GoChecked += a.GoChecked
+	for _, k := range a.counts {
+		out.Count(k)
+	}
+	for _, n := range a.notes {
+		out.Note("%s", n)
+	}
+	for _, v := range a.viols {
+		c, err := Parse(v.Case)
+		if err == nil {
+			violation(out, v.Signature, v.What, c)
+		}
+	}
+}
 
 func violation(out *Out, sig, what string, c Sx) {
 	violCount[sig]++
@@ -397,8 +527,26 @@ func lengthsQuick(rng *Rng) []int {
 // Go-side: the unrolled code over the toy block against crypto/cipher CFB over the same
 // block, both directions, at EVERY length 0..4096 for both block sizes, on one pair of
 // scratch buffers carried through the whole sweep.
-func toySweep(out *Out, rng *Rng) {
-	for _, bs := range []int{8, 16} {
+func toySweep(out *Out, rng0 *Rng) func() {
+	var wg sync.WaitGroup
+	accs := make([]*acc, 2)
+	for w, bs := range []int{8, 16} {
+		accs[w] = &acc{}
+		wg.Add(1)
+		go toySweepOne(accs[w], rng0.Fork(), bs, &wg)
+	}
+	return func() {
+		wg.Wait()
+		for _, a := range accs {
+			a.merge(out)
+		}
+		out.Note("Go-side toy sweep: both block sizes x every length 0..4096 through the unrolled code vs crypto/cipher CFB and round trip, scratch buffers carried")
+	}
+}
+
+func toySweepOne(out *acc, rng *Rng, bs int, wg *sync.WaitGroup) {
+	defer wg.Done()
+	{
 		blk := &toyBlock{bs: bs, mul: byte(rng.Intn(256)) | 1, key: rng.Bytes(bs)}
 		iv := rng.Bytes(rng.Range(bs, 48))
 		encbuf, decbuf := rng.Bytes(bs), rng.Bytes(2*bs)
@@ -426,18 +574,21 @@ func toySweep(out *Out, rng *Rng) {
 			})
 			out.GoChecked += 2
 			if p || !bytes.Equal(ct, want) {
-				violation(out, fmt.Sprintf("C16/stdlib-cfb/toy%d", bs), fmt.Sprintf("unrolled CFB over a toy %d-byte block differs from crypto/cipher CFB (length %d)", bs, n), in)
+				out.violation(fmt.Sprintf("C16/stdlib-cfb/toy%d", bs), fmt.Sprintf("unrolled CFB over a toy %d-byte block differs from crypto/cipher CFB (length %d)", bs, n), in)
 			} else if !bytes.Equal(back, msg) {
-				violation(out, fmt.Sprintf("C16/roundtrip/toy%d", bs), fmt.Sprintf("decrypt(encrypt(m)) != m over a toy %d-byte block (length %d)", bs, n), in)
+				out.violation(fmt.Sprintf("C16/roundtrip/toy%d", bs), fmt.Sprintf("decrypt(encrypt(m)) != m over a toy %d-byte block (length %d)", bs, n), in)
 			}
 		}
 	}
-	out.Note("Go-side toy sweep: both block sizes x every length 0..4096 through the unrolled code vs crypto/cipher CFB and round trip, scratch buffers carried")
 }
 
 func gen(a Args, out *Out) {
 	g := &genState{rng: NewRng(a.Seed), out: out}
 	rng := g.rng
+	// the Go-side sweeps run in the background while the cases are generated
+	finishToy := toySweep(out, rng.Fork())
+	finishFactory := factorySweep(a, out, rng.Fork())
+	finishSweeps := func() { finishToy(); finishFactory() }
 	var lens []int
 	if a.Thorough() {
 		for n := 0; n <= 4097; n++ {
@@ -539,8 +690,70 @@ func gen(a Args, out *Out) {
 			out.Count("factory-case:" + rc.name)
 		}
 	}
-	toySweep(out, rng.Fork())
-	factorySweep(a, out, rng.Fork())
+	slicingCases(a, out, rng.Fork())
+	finishSweeps()
+}
+
+// factory slicing: keys and ivs of every interesting length; pairs differing in one byte
+func slicingCases(a Args, out *Out, rng *Rng) {
+	names := []string{"aes-128", "aes-192", "aes-256", "", "sm4", "twofish", "3des", "xtea", "salsa20", "none",
+		"AES-128", "aes-512", "des", "chacha20"}
+	keyLens := []int{0, 8, 15, 16, 17, 23, 24, 25, 31, 32, 33, 40}
+	ivLens := []int{0, 7, 8, 9, 15, 16, 17, 24, 48}
+	per := 10
+	if a.Thorough() {
+		per = 108
+	}
+	for _, name := range names {
+		for s := 0; s < per; s++ {
+			kl, il := keyLens[rng.Intn(len(keyLens))], ivLens[rng.Intn(len(ivLens))]
+			if a.Thorough() {
+				kl, il = keyLens[s%len(keyLens)], ivLens[(s/len(keyLens))%len(ivLens)]
+			} else if s < 4 {
+				kl, il = rng.PickInt(16, 24, 32, 40), rng.PickInt(16, 24, 48) // mostly accepted
+			}
+			in := List(Int(5), Str(name), Bytes(rng.Bytes(kl)), Bytes(rng.Bytes(il)), Uint(uint64(rng.Intn(1<<16))), Int(int64(rng.Range(17, 40))))
+			obs := run(in)
+			out.Case("slicing", true, in, obs)
+			switch {
+			case obs.At(0).AsBool():
+				out.Count("slicing:factory-panics")
+			case obs.At(1).AsBool():
+				out.Count("slicing:first-call-panics")
+			default:
+				out.Count("slicing:ok")
+			}
+		}
+		// one-byte differences at the slice boundaries
+		for _, kl := range []int{32, 40} {
+			key, iv := rng.Bytes(kl), rng.Bytes(48)
+			flip := func(b []byte, i int) []byte {
+				c := exact(b)
+				c[i] ^= byte(1 << uint(rng.Intn(8)))
+				return c
+			}
+			emit := func(kb, ib []byte, what string) {
+				in := List(Int(6), Str(name), Bytes(key), Bytes(iv), Bytes(kb), Bytes(ib), Uint(uint64(rng.Intn(1<<16))), Int(int64(rng.Range(17, 40))))
+				obs := run(in)
+				out.Case("slicing-pair", true, in, obs)
+				if bytes.Equal(obs.At(1).AsBytes(), obs.At(3).AsBytes()) {
+					out.Count("pair:" + what + ":same-output")
+				} else {
+					out.Count("pair:" + what + ":different-output")
+				}
+			}
+			for _, i := range []int{0, 15, 16, 23, 24, 31, 32, 39} {
+				if i < kl && (a.Thorough() || rng.Chance(2, 3)) {
+					emit(flip(key, i), iv, "key")
+				}
+			}
+			for _, i := range []int{0, 7, 8, 15, 16, 47} {
+				if a.Thorough() || rng.Chance(2, 3) {
+					emit(key, flip(iv, i), "iv")
+				}
+			}
+		}
+	}
 }
 
 // ---- Go-side sweep over the factory ----
@@ -549,13 +762,44 @@ var factoryNames = []struct{ name string }{
 	{"aes-128"}, {"aes-192"}, {"aes-256"}, {""}, {"sm4"}, {"twofish"}, {"3des"}, {"xtea"}, {"salsa20"}, {"none"},
 }
 
-func factorySweep(a Args, out *Out, rng *Rng) {
+func factorySweep(a Args, out *Out, rng0 *Rng) func() {
 	maxLen := 4096
 	rounds := 1
 	if a.Thorough() {
 		rounds = 4
 	}
+	var wg sync.WaitGroup
+	var accs []*acc
 	for _, rc := range factoryNames {
+		parts := 1 // the slow ciphers are split over several workers (lengths n with n % parts == part)
+		switch rc.name {
+		case "3des":
+			parts = 4
+		case "xtea", "twofish", "sm4":
+			parts = 2
+		}
+		for part := 0; part < parts; part++ {
+			ac := &acc{}
+			accs = append(accs, ac)
+			wg.Add(1)
+			go func(out *acc, rng *Rng, name string, part int) {
+				defer wg.Done()
+				factorySweepOne(out, rng, name, maxLen, rounds, part, parts)
+			}(ac, rng0.Fork(), rc.name, part)
+		}
+	}
+	return func() {
+		wg.Wait()
+		for _, a := range accs {
+			a.merge(out)
+		}
+		out.Note("Go-side sweep: %d factory names x every length 0..%d x %d key/IV round(s), vs crypto/cipher CFB (block ciphers, both directions), salsa20.XORKeyStream, identity; round trip in shuffled order with losses", len(factoryNames), maxLen, rounds)
+	}
+}
+
+func factorySweepOne(out *acc, rng *Rng, name string, maxLen, rounds, part, parts int) {
+	rc := struct{ name string }{name}
+	{
 		for r := 0; r < rounds; r++ {
 			key := rng.Bytes(32)
 			ivlen := rng.Range(16, 48)
@@ -571,7 +815,7 @@ func factorySweep(a Args, out *Out, rng *Rng) {
 				if nm == "" {
 					nm = "default"
 				}
-				violation(out, "C16/factory/"+nm+"/"+code, fmt.Sprintf("cipher %q, message length %d: %s", rc.name, n, what), in)
+				out.violation("C16/factory/"+nm+"/"+code, fmt.Sprintf("cipher %q, message length %d: %s", rc.name, n, what), in)
 			}
 			var enc, dec xcipher.BlockCryptor
 			if p, v := Catch(func() {
@@ -583,9 +827,9 @@ func factorySweep(a Args, out *Out, rng *Rng) {
 			}
 			// every length, in a shuffled order on the same pair of instances; the ciphertexts
 			// are kept and decrypted later in another order, some never (lost)
-			order := make([]int, maxLen+1)
-			for i := range order {
-				order[i] = i
+			var order []int
+			for n := part; n <= maxLen; n += parts {
+				order = append(order, n)
 			}
 			for i := len(order) - 1; i > 0; i-- {
 				j := rng.Intn(i + 1)
@@ -671,10 +915,9 @@ func factorySweep(a Args, out *Out, rng *Rng) {
 			if !bad {
 				flush()
 			}
-			out.Count("factory-sweep:" + rc.name)
+			out.Count(fmt.Sprintf("factory-sweep:%s:lengths=%d", rc.name, len(order)))
 		}
 	}
-	out.Note("Go-side sweep: %d factory names x every length 0..%d x %d key/IV round(s), vs crypto/cipher CFB (block ciphers, both directions), salsa20.XORKeyStream, identity; round trip in shuffled order with losses", len(factoryNames), maxLen, rounds)
 }
 
 func main() {
